@@ -71,6 +71,9 @@ def main():
         d = SEEDED / n
         meta = json.loads((d / 'meta.json').read_text())
         demo = next(d.glob('demo.*'))
+        if meta.get('unowned') and a.cmd == 'run' and not a.checks:
+            print(n, 'UNOWNED (no stated property covers it):', meta['unowned'][:100])
+            continue
         if meta.get('obsolete') and a.cmd == 'run':
             print(n, 'OBSOLETE (skipped):', meta['obsolete'][:80])
             continue
